@@ -166,6 +166,37 @@ def parseEv : List String → Option Ev
   | ["shutdown", c, i] => some (.shutdown (c == "1") (i == "1"))
   | _ => none
 
+/-! ## direct Queue sessions without concurrency: `qseq <maxSize> <op>…`
+
+`a<rank>` = `Queue.Add` with due rank (the i-th Add creates element i), `c<i>` = `Cancel()` of element i;
+afterwards `Size()` is read and the queue is drained by `Poll(false)` until it returns nil.  The answer
+is the size and the elements in the order of their delivery — computed with the model's own `add`,
+`cancelElem` and `Heap.pop` (size bound victim, ties). -/
+
+def qseqOp (s : Sh) (tok : String) : Sh :=
+  match tok.toList with
+  | 'a' :: rest =>
+    match (String.ofList rest).toNat? with
+    | some rank => (add s rank none .plain s.next).1
+    | none => s
+  | 'c' :: rest =>
+    match (String.ofList rest).toNat? with
+    | some i => if i < s.next then cancelElem s i else s
+    | none => s
+  | _ => s
+
+def drainHeap : Nat → List Elem → List Nat → List Nat
+  | 0, _, acc => acc.reverse
+  | fuel + 1, h, acc =>
+    match Heap.pop h with
+    | none => acc.reverse
+    | some (e, h') => drainHeap fuel h' (e.serial :: acc)
+
+def qseq (m : Nat) (toks : List String) : String :=
+  let s := toks.foldl qseqOp ({ maxSize := m } : Sh)
+  let order := drainHeap (s.heap.length + 1) s.heap []
+  s!"size={s.heap.length} order=[{" ".intercalate (order.map toString)}]"
+
 def stepLine (d : DSt) (toks : List String) : DSt × String :=
   match toks with
   | ["new", w, m] =>
@@ -186,6 +217,11 @@ def stepLine (d : DSt) (toks : List String) : DSt × String :=
   | "addburst" :: _ => (d, "done")
   | "sdrace" :: _ => (d, "done")
   | "cancelrace" :: _ => (d, "done")
+  | "qsess" :: _ => (d, "done")
+  | "qseq" :: m :: rest =>
+    match m.toNat? with
+    | some m => (d, qseq m rest)
+    | none => (d, "bad-op")
   | ["check"] =>
     let ans := match firstBad d.trace with
       | none => "accept"
@@ -212,6 +248,25 @@ def stepLine (d : DSt) (toks : List String) : DSt × String :=
             | _ => d'
           (d', answer d')
         | _, _, _ => (d, "bad-op")
+      | ["addafter", tag, delay, kind] =>
+        -- Executor.ExecuteAfter: the due time is the clock at the call plus the delay
+        match tag.toNat?, delay.toNat?, parseKind kind with
+        | some tag, some delay, some kind =>
+          let d' := opAt d now [.add (now + delay) kind tag]
+          let d' := match d'.res with
+            | .ok x => { d' with handles := (tag, x) :: d'.handles }
+            | _ => d'
+          (d', answer d')
+        | _, _, _ => (d, "bad-op")
+      | ["execafter", i, tag, delay, kind] =>
+        match i.toNat?, tag.toNat?, delay.toNat?, parseKind kind with
+        | some i, some tag, some delay, some kind =>
+          let d' := opAt d now [.exec i (now + delay) kind tag]
+          let d' := match d'.res with
+            | .ok x => { d' with handles := (tag, x) :: d'.handles }
+            | _ => d'
+          (d', answer d')
+        | _, _, _, _ => (d, "bad-op")
       | ["exec", i, tag, due, kind] =>
         match i.toNat?, tag.toNat?, due.toNat?, parseKind kind with
         | some i, some tag, some due, some kind =>
